@@ -1121,6 +1121,11 @@ func sendReadyServiceInfo(ctx context.Context, transport Transport, alg protocol
 		if ready.MaxDeviceServiceInfoSize == nil {
 			return serviceinfo.DefaultMTU, nil
 		}
+		if *ready.MaxDeviceServiceInfoSize < minServiceInfoSize {
+			captureErr(ctx, protocol.InvalidMessageErrCode, "")
+			return 0, fmt.Errorf("TO2.OwnerServiceInfoReady: max device service info size %d is below the minimum of %d",
+				*ready.MaxDeviceServiceInfoSize, minServiceInfoSize)
+		}
 		return *ready.MaxDeviceServiceInfoSize, nil
 
 	case protocol.ErrorMsgType:
@@ -1135,6 +1140,11 @@ func sendReadyServiceInfo(ctx context.Context, transport Transport, alg protocol
 		return 0, fmt.Errorf("unexpected message type for response to TO2.DeviceServiceInfoReady: %d", typ)
 	}
 }
+
+// minServiceInfoSize is the smallest service info size either side may
+// announce. Smaller sizes leave no room for the message framing (the send
+// loops subtract it from an unsigned size) and for a single devmod entry.
+const minServiceInfoSize = 256
 
 type ownerServiceInfoReady struct {
 	MaxDeviceServiceInfoSize *uint16 // maximum size service info that Owner can receive
@@ -1152,6 +1162,9 @@ func (s *TO2Server) ownerServiceInfoReady(ctx context.Context, msg io.Reader) (*
 	mtu := uint16(serviceinfo.DefaultMTU)
 	if deviceReady.MaxOwnerServiceInfoSize != nil {
 		mtu = *deviceReady.MaxOwnerServiceInfoSize
+	}
+	if mtu < minServiceInfoSize {
+		return nil, fmt.Errorf("max owner service info size %d is below the minimum of %d", mtu, minServiceInfoSize)
 	}
 	if err := s.Session.SetMTU(ctx, mtu); err != nil {
 		return nil, fmt.Errorf("error storing max service info size to send to device: %w", err)
